@@ -33,6 +33,7 @@ UNITS = [
     "src/corecel/sys/ActionRegistry.cc", "src/corecel/sys/KernelRegistry.cc", "src/corecel/sys/MemRegistry.cc",
     "src/corecel/sys/Environment.cc", "src/corecel/sys/Device.cc", "src/corecel/sys/ScopedMem.cc",
     "src/corecel/sys/MultiExceptionHandler.cc", "src/corecel/sys/ScopedSignalHandler.cc",
+    "src/corecel/sys/ScopedMpiInit.cc", "src/corecel/sys/MpiCommunicator.cc",
     "src/corecel/io/Logger.cc", "src/corecel/io/OutputRegistry.cc",
     "src/corecel/data/AuxParamsRegistry.cc", "src/corecel/data/AuxStateVec.cc",
     "app/celer-sim/Runner.cc", "app/celer-sim/Transporter.cc", "app/celer-sim/celer-sim.cc",
@@ -93,7 +94,7 @@ def run(db, cx):
                 return e.get("var") in names and callee_name in e.get("calls", [])
         return False
 
-    def callers_locked(f, depth=2):
+    def callers_locked(f, depth=3, static_ok=True):
         """every reachable caller calls f from a lock-dominated position (or from the
         initialiser of a function-local static, which C++11 serialises)"""
         cs = [c for c in rcg.get(f.node, ()) if c in R]
@@ -108,8 +109,8 @@ def run(db, cx):
             if not sites:
                 return False
             for p in sites:
-                if not locked(g, p) and not in_static_init(g, p, f.name):
-                    if depth > 0 and callers_locked(g, depth - 1):
+                if not locked(g, p) and not (static_ok and in_static_init(g, p, f.name)):
+                    if depth > 0 and callers_locked(g, depth - 1, static_ok):
                         continue
                     return False
         return True
@@ -152,7 +153,9 @@ def run(db, cx):
                         hit = "call " + ev["callee"].split("::")[-1]
                         if ev["callee"] in PER_STREAM_CALLS:
                             a = ev.get("args", [])
-                            ok = bool(a) and ("stream" in a[0].get("t", "").lower())
+                            ok = bool(a) and not a[0].get("lit") and (
+                                any(c_.endswith("::stream_id") for c_ in a[0].get("calls", []))
+                                or any("stream" in r_.lower() for r_ in a[0].get("refs", [])))
                             nacc += 1
                             cx.ob("C07.1-mutable-members", "%s: per-stream access in %s" % (q, f.name),
                                   ok, "%s(%s, ...)" % (ev["callee"].split("::")[-1],
@@ -226,7 +229,9 @@ def run(db, cx):
                   "type %s" % g["ty"][:60], short(g["loc"]))
             continue
         for (f, b, i, ev, how) in sites:
-            ok = locked(f, (b, i)) or callers_locked(f)
+            # a function-local static initialiser only serialises *its own* object: it does
+            # not protect a third global, so that exemption is off here
+            ok = locked(f, (b, i)) or callers_locked(f, static_ok=False)
             cx.ob("C07.2-globals", "%s: %s in %s is lock-protected" % (name, how, f.name), ok,
                   "reachable via " + " -> ".join(chain(f.node)[-5:]), short(ev["loc"]),
                   why="an unsynchronised write to a process-wide object from per-stream code is a "
